@@ -207,6 +207,8 @@ type c01Engine struct {
 	mode  string
 	// set when a run with `distinct` took seconds (temporary Badger store per run)
 	distinctSlow bool
+	// emptyPrev: after loading a graph, empty the previous case's graph (same store, same ids)
+	emptyPrev bool
 }
 
 func (c *c01Engine) reset(g map[string]interface{}) error {
@@ -214,7 +216,32 @@ func (c *c01Engine) reset(g map[string]interface{}) error {
 	c.graph = fmt.Sprintf("g%d", c.n)
 	vs, _ := g["vertices"].([]interface{})
 	es, _ := g["edges"].([]interface{})
-	return c.eng.LoadGraph(c.graph, vs, es)
+	if err := c.eng.LoadGraph(c.graph, vs, es); err != nil {
+		return err
+	}
+	// the graphs of earlier cases live in the same store and use the same ids: the previous one is
+	// now emptied element by element (this graph's elements were written AFTER theirs).  Graphs are
+	// isolated from one another: nothing of this may show in the graph under test — not in its
+	// records, not in its adjacency, not in the label index a rewritten plan starts from.
+	if c.n > 1 && (c.emptyPrev || c.mode == "prod") {
+		if prev, err := c.eng.DB.Graph(fmt.Sprintf("g%d", c.n-1)); err == nil {
+			for _, e := range es {
+				if m, ok := e.(map[string]interface{}); ok {
+					if id, ok := m["gid"].(string); ok && id != "" {
+						prev.DelEdge(id)
+					}
+				}
+			}
+			for _, v := range vs {
+				if m, ok := v.(map[string]interface{}); ok {
+					if id, ok := m["gid"].(string); ok && id != "" {
+						prev.DelVertex(id)
+					}
+				}
+			}
+		}
+	}
+	return nil
 }
 
 func (c *c01Engine) iface() (gdbi.GraphInterface, error) {
